@@ -99,7 +99,7 @@ Section Run.
   Proof.
     assert (Hn : forall o x, get (init K) o = Some x -> False).
     { intros o x E. unfold get in E. cbn in E. rewrite lookup_nil in E. discriminate. }
-    split; [|intros H; contradiction]. split; cbn.
+    split; [|split; [intros H; contradiction|intros o x E; destruct (Hn o x E)]]. split; cbn.
     - constructor.
     - reflexivity.
     - constructor.
@@ -312,7 +312,7 @@ Section Run.
     let m' := remove_from_list o (uhdr o (fun _ => h) m) in dirty m' \/ o ∉ pc m'.
   Proof.
     intros HG E. apply (G_unbuffer A). eapply mild_G; [|exact HG].
-    apply mild_uhdr_const, (inc_rc_mark _ _ E).
+    apply mild_uhdr_const; [apply (inc_rc_mark _ _ E)|apply (inc_rc_tc _ _ E)].
   Qed.
 
   (** [Cc::downgrade] *)
@@ -431,9 +431,10 @@ Section Run.
     (* 4 *) st_alloc m = bytes K m /\
     (* 5 *) pc_alive m = true /\
     (* 6 *) (forall o, ~ In (EBad Underflow o) (log m)) /\
-    (* 7 *) (A <> [] -> st_collecting m = true).
+    (* 7 *) (A <> [] -> st_collecting m = true) /\
+    (* 8, I-tc *) (forall o, o ∈ pc m -> h_tc (hdr_of m o) = 0).
   Proof.
-    intros [I HA]. destruct (buffered_count A m (conj I HA)) as (B1 & B2 & _ & _ & B5).
+    intros (I & HA & Hz). destruct (buffered_count A m (conj I (conj HA Hz))) as (B1 & B2 & _ & _ & B5).
     split; [auto|]. split; [split; [exact B5|]|].
     { intros o x Ex Hm. apply (ik_pc _ _ _ _ I o x Ex), Hm. }
     split.
@@ -445,8 +446,14 @@ Section Run.
         destruct (H2 Hm) as [?|Hf]; [assumption|congruence].
       - intros o x Ex Hm. apply (ik_iq _ _ _ _ I o x Ex) in Hm. inversion Hm. }
     split; [exact (ik_bytes _ _ _ _ I)|]. split; [exact (ik_alive _ _ _ _ I)|].
-    split; [apply uflow_spec, (ik_uflow _ _ _ _ I)|exact HA].
+    split; [apply uflow_spec, (ik_uflow _ _ _ _ I)|]. split; [exact HA|].
+    intros o Ho. destruct (B5 o Ho) as (x & Ex & Hm & _). rewrite (hdr_of_get _ _ _ Ex).
+    exact (Hz o x Ex Hm).
   Qed.
+
+  (** I-tc: every buffered object has tracing counter 0 *)
+  Theorem buffered_tc_zero A m : Ibuf K A m -> forall o, o ∈ pc m -> h_tc (hdr_of m o) = 0.
+  Proof. intros H. apply (Ibuf_spec A m H). Qed.
 
   (** a decidable reading of [clean], for examples *)
   Definition cleanb (m : machine) : bool := forallb (fun e => negb (bad_ev e)) (log m).
